@@ -41,6 +41,9 @@ CHECKS = {
  "C05": dict(cat="fault_enumeration", technique="crash-point enumeration: bolt-file + cloud + acknowledged-reply images at every effect boundary, each restarted through the real restart path and judged; SIGKILL of a real DiskStorage write stream in a child process; differential oracle on the restart-time record filter",
      text="While daemon histories run, an image is taken before/after every database write, after every reply and after every mutating cloud call (2.9k boundaries, 1.8k restarted in quick). Each image is restarted like builder.setupENIManager (NewDiskStorage on the copy, attached ENIs, filterENINotFound, NewLocal, Manager.Run(records)) behind the real networkService: acknowledged ADDs must keep record, pool ownership and address on a repeated ADD; acknowledged DELs must be gone; fresh pods must never receive an acknowledged address. A child process streaming Put/Delete through DiskStorage is SIGKILLed at PRNG-chosen instants and the reopened store compared with the acknowledged prefix.",
      note="SIGKILL, not power failure. Images are only taken while no write transaction is open (crash inside bolt's commit is exercised by the kill test only). Reservoir sampling above K images per history; counts of enumerated vs restarted points are in evidence.", ref="§2 C05"),
+ "C09": dict(cat="exploration", technique="state oracle over generated (store, pod set) pairs driven through the real gcPods in a private netns, pass by pass; concurrent RPC traffic and re-created pods during GC; kernel rule inspection",
+     text="Records are produced by real ADDs and then turned into running / exited / vanished / moved / sticky / recreated / lookup-failing pods, on the kernel-attached ENI and on ENIs that are not attached, with optional List failure, a persistently failing store delete and concurrent ADD/GET or re-creation + ADD during the pass. After each of five passes: existing and lookup-failing pods keep record and ownership, absent pods are collected within two (sticky: three) passes even when another record's clean-up fails, planted ip rules of collected pods are gone from the kernel, the last pass changes nothing.",
+     note="Runs under unshare -n -m; lo (MAC reported as empty) is the only kernel device, so 'ENI attached' = MAC \"\". API server simulated, incl. the Raw field selector the fake client ignores.", ref="§2 C09"),
 }
 NOT_YET = {}
 
